@@ -294,6 +294,17 @@ func (e *Exec) access(p *PtrVal, size int, what string) (int, []int) {
 	hi := lim
 	if ub, ok := sym.UBound(off, 32); ok && int64(ub) < hi && int64(ub) >= 0 {
 		hi = int64(ub)
+	} else if lim > 8 {
+		// largest feasible offset, by bisection (a handful of queries; keeps the ite chains short)
+		lo := int64(0)
+		for lo < hi {
+			mid := (lo + hi) / 2
+			if r, _ := e.feasible(sym.UGT(off, sym.BV(uint64(mid), 64))); r == sym.Unsat {
+				hi = mid
+			} else {
+				lo = mid + 1
+			}
+		}
 	}
 	n := int(hi)/step + 1
 	if n > e.cfg.SymIdxCap {
@@ -340,7 +351,7 @@ func (e *Exec) loadAt(o *Obj, off int, ty *Type) Val {
 						return e.ptrToInt(p)
 					}
 				}
-				e.unsupported("integer load of pointer bytes")
+				e.unsupported("integer load (%s) of pointer bytes at %s+%d", ty, o.Name, off)
 			}
 			if t == nil {
 				t = c.t
@@ -385,6 +396,15 @@ func (e *Exec) loadAt(o *Obj, off int, ty *Type) Val {
 	}
 	e.unsupported("load of type %s", ty)
 	return nil
+}
+
+func (e *Exec) hasPtrBytes(o *Obj, off, n int) bool {
+	for i := 0; i < n; i++ {
+		if o.B[off+i].p != nil {
+			return true
+		}
+	}
+	return false
 }
 
 func (e *Exec) wholePtr(o *Obj, off int) *PtrVal {
@@ -450,6 +470,12 @@ func (e *Exec) load(p *PtrVal, ty *Type) Val {
 	}
 	var res *sym.Term
 	for i := len(cands) - 1; i >= 0; i-- {
+		if e.hasPtrBytes(p.Obj, cands[i], size) {
+			// a candidate position that holds pointer bytes: fine as long as the offset cannot be there
+			if r, _ := e.feasible(sym.Eq(p.Off, sym.BV(uint64(cands[i]), 64))); r == sym.Unsat {
+				continue
+			}
+		}
 		v := asTerm(e.loadAt(p.Obj, cands[i], ty))
 		if res == nil {
 			res = v
